@@ -22,7 +22,7 @@ def run(tier):
         "rule": "the real ZoneRegistrar template instantiated with a bounds-recording registry broker and a step-counting "
                 "comparator (bound n + 4*ceil(log2(n+1)) + 8 comparisons), and the stock registrar + ZoneManagerImpl on exact-size "
                 "heap arrays under ASan+UBSan; registries of every size 0..%d cut from both shipped registries at seeded offsets "
-                "(contiguous and scattered), sorted / shuffled / reversed, plus the two full registries; queries: every present "
+                "(contiguous and scattered), sorted / shuffled / reversed / nearly sorted (first, middle or last two swapped; smallest first with the rest shuffled), plus the two full registries; queries: every present "
                 "name, for each present name its proper prefix, two extensions, a just-below name and a case variant, fixed odd "
                 "names; every id, id+-1, 0, 0xFFFFFFFF; indices 0..size+1, 0x8000, 0xFFFF. Oracle: first exact match by linear "
                 "strcmp scan. distinct = distinct (registry size, gap position) pairs hit by an absent name." % maxsize,
